@@ -44,6 +44,9 @@ func hitOps(res *lib.Result, ops []Op) {
 		if o.K == "newbatch" && o.Wrap != "" && o.Idx {
 			res.Hit("newbatch:wrapped-in-" + o.Wrap)
 		}
+		if o.K == "lnew" {
+			res.Hit("lnew:" + o.Wrap + "-over-" + map[byte]string{'b': "batch", 'l': "layer"}[o.Src[0]])
+		}
 		if o.K == "iter" || o.K == "scan" || o.K == "psize" {
 			switch {
 			case o.U && len(o.Key) == 0:
@@ -587,6 +590,44 @@ func probeEmptyKeyFlush(res *lib.Result) bool {
 	return true
 }
 
+const sigSmallBatchHint = "pebble-empty-batch-with-size-hint-below-12-panics-on-write-and-close"
+
+// probeSmallBatchHint: NewBatchWithSize(n) / NewIndexedBatchWithSize(n) with 0 < n < 12 and nothing written:
+// Write() and Close() must work as on db/memory (Pebble reslices its buffer to the 12-byte batch header).
+func probeSmallBatchHint(res *lib.Result) bool {
+	var bad []string
+	for _, be := range []Backend{memoryBackend(), pebble1Backend(false), pebble2Backend(false)} {
+		for _, size := range []int{1, 11} {
+			for _, call := range []string{"bwrite", "bclose"} {
+				for _, idx := range []bool{false, true} {
+					w, err := NewWorld(be)
+					if err != nil {
+						res.Fatalf("probe of small batch size hints: open %s: %v", be.Name, err)
+						return false
+					}
+					key2 := []byte{0x02} // size 1
+					if size == 11 {
+						key2 = []byte{0x06}
+					}
+					w.Exec(Op{K: "newbatch", Idx: idx, U: true, Key2: key2})
+					if out := w.Exec(Op{K: call}); out != "ok" {
+						bad = append(bad, fmt.Sprintf("%s: New%sBatchWithSize(%d); %s -> %s", be.Name, map[bool]string{true: "Indexed"}[idx], size, call, out))
+					}
+					w.Dispose()
+				}
+			}
+		}
+	}
+	if len(bad) == 0 {
+		return false
+	}
+	res.Violate(lib.Violation{Sig: sigSmallBatchHint,
+		What: "db/pebble and db/pebblev2: an EMPTY batch made with NewBatchWithSize(n) / NewIndexedBatchWithSize(n), 0 < n < 12, panics in Write() and in Close() " +
+			"(slice bounds out of range [:12] with capacity n: Pebble's Batch.reset reslices the preallocated buffer to its 12-byte header); db/memory returns nil",
+		Replay: map[string]any{"steps": []string{"b := store.NewBatchWithSize(1)", "b.Close()   // or b.Write()"}, "observed": bad}})
+	return true
+}
+
 // finish removes the scratch root (only succeeds when it is empty) and writes the result.
 func finish(f lib.Flags, res *lib.Result) {
 	os.Remove(scratchRoot)
@@ -656,6 +697,10 @@ func main() {
 	// table block holds only the empty key. Probed in a child process; while the defect is there,
 	// sequences that write the empty key do not flush / reopen (the harness must survive).
 	emptyKeyCrash := probeEmptyKeyFlush(res)
+
+	// C00. Pebble (v1 and v2) panics on an empty batch whose size hint is below its batch header; while it
+	// does, the sequences use hints >= 12 (the probe is the reproduction)
+	smallHintPanics = probeSmallBatchHint(res)
 
 	f5Family, f5Left := 0, 0
 	gaveUp := false
@@ -748,6 +793,19 @@ func main() {
 	for _, ops := range batchLogSequences(f.Scale(3, 4)) {
 		runOne(ops, "all-batch-logs")
 	}
+	// C1. stacks of wrappers (stack.go): the layer under a BufferBatch changes before the buffer is flushed
+	for _, ops := range stackDirected() {
+		runOne(ops, "stack-directed")
+	}
+	for _, ops := range stackSiblings() {
+		runOne(ops, "stack-three-buffers-over-one-batch-all-flush-orders")
+	}
+	for _, ops := range stackExhaustive(f.Scale(4, 5)) {
+		runOne(ops, "stack-one-key-all-histories")
+	}
+	for i, n := 0, f.Scale(120, 3000); i < n; i++ {
+		runOne(stackRandom(r.Fork(uint64(4_000_000+i))), "stack-random")
+	}
 	rn.crashable = true
 	for _, ops := range durabilitySequences(r.Fork(3_000_000), f.Scale(30, 600)) {
 		runOne(ops, "durability-power-loss-after-each-write-path")
@@ -775,10 +833,12 @@ func main() {
 	for i := 0; i < n; i++ {
 		rr := r.Fork(uint64(i))
 		rn.disk = i%10 == 0
-		allowF5 := i%7 == 3
+		// (with batch.DeleteRange recorded as a range — probed — the store may change under a pending range in
+		// every sequence; with the materialising variant only in every 7th, finding F5)
+		allowF5 := cfg.RangeLog || i%7 == 3
 		ops := withEnding(genSequence(rr, rr.Range(8, 70), allowF5, cfg.CbUnlocked))
 		label := "random"
-		if allowF5 {
+		if i%7 == 3 {
 			label = "random+store-changes-under-pending-deleterange"
 		}
 		runOne(ops, label)
@@ -812,10 +872,41 @@ func genKey(r *lib.RNG) []byte {
 	return b
 }
 
+// allStrings: every byte string of length <= maxLen over the alphabet
+func allStrings(alphabet []byte, maxLen int) [][]byte {
+	out := [][]byte{{}}
+	for start, l := 0, 0; l < maxLen; l++ {
+		end := len(out)
+		for _, p := range out[start:end] {
+			for _, b := range alphabet {
+				out = append(out, append(append([]byte{}, p...), b))
+			}
+		}
+		start = end
+	}
+	return out
+}
+
 func upperBoundPhase(f lib.Flags, r *lib.RNG, drv *lib.Driver, res *lib.Result) (died error) {
+	// EXHAUSTIVE first: every prefix of length <= 3 over {00,01,fe,ff} (85 prefixes: every shape of trailing
+	// 0xff bytes) against the model, and against its defining property on the real function for EVERY key of
+	// length <= 4 over {00,01,02,fe,ff} — among them the bound itself and the keys right above it: a key lies in
+	// [p, UpperBound(p)) iff it has the prefix p, i.e. the bound is above every key with the prefix and it is
+	// the LEAST such byte string (a bound that is merely large enough lets keys of the next prefixes in).
+	exPrefixes := allStrings([]byte{0x00, 0x01, 0xfe, 0xff}, 3)
+	exKeys := allStrings([]byte{0x00, 0x01, 0x02, 0xfe, 0xff}, 4)
+	pairs := make([][2][]byte, 0, len(exPrefixes)+f.Scale(2000, 50000))
+	for _, p := range exPrefixes {
+		pairs = append(pairs, [2][]byte{p, nil})
+	}
+	res.HitN("ub-exhaustive:prefixes", len(exPrefixes))
+	res.HitN("ub-exhaustive:keys-per-prefix", len(exKeys))
 	n := f.Scale(2000, 50000)
 	for i := 0; i < n; i++ {
-		p, key := genKey(r), genKey(r)
+		pairs = append(pairs, [2][]byte{genKey(r), genKey(r)})
+	}
+	for i, pk := range pairs {
+		p, key := pk[0], pk[1]
 		ub := dbutils.UpperBound(p)
 		implS := "nil"
 		if ub != nil {
@@ -833,11 +924,19 @@ func upperBoundPhase(f lib.Flags, r *lib.RNG, drv *lib.Driver, res *lib.Result) 
 				}
 			}
 		}
-		inRange := bytes.Compare(p, key) <= 0 && (ub == nil || bytes.Compare(key, ub) < 0)
-		if bytes.HasPrefix(key, p) != inRange {
-			res.Violate(lib.Violation{Sig: "upperbound-range-differs-from-prefix",
-				What:   fmt.Sprintf("UpperBound(%x)=%x: key %x prefix=%v inRange=%v", p, ub, key, bytes.HasPrefix(key, p), inRange),
-				Replay: map[string]string{"prefix": hx(p), "key": hx(key)}})
+		keys := [][]byte{key}
+		if i < len(exPrefixes) {
+			keys = exKeys
+		}
+		for _, key := range keys {
+			inRange := bytes.Compare(p, key) <= 0 && (ub == nil || bytes.Compare(key, ub) < 0)
+			if bytes.HasPrefix(key, p) != inRange {
+				res.Violate(lib.Violation{Sig: "upperbound-range-differs-from-prefix",
+					What: fmt.Sprintf("UpperBound(%x)=%x: key %x has the prefix: %v, lies in [prefix, bound): %v (the bound must be the least byte string above every key with the prefix)",
+						p, ub, key, bytes.HasPrefix(key, p), inRange),
+					Replay: map[string]string{"prefix": hx(p), "key": hx(key), "UpperBound(prefix)": implS}})
+				break
+			}
 		}
 		if ub == nil {
 			res.Hit("ub=nil")
